@@ -71,6 +71,7 @@ class EvDomain(Domain):
     def opaque(self, n):
         q = n.d.get('calleeq') or n.d.get('ctor') or ''
         if q in self.opaque_q: return True
+        if (n.d.get('callee_def') or n.d.get('ctor_def') or '').startswith('witness/'): return True     # witness callables stand for user code
         if n.k == 'call' and n.virtual and not n.qualified: return True
         if n.k == 'construct' and ((n.d.get('class') or '') in RW_GUARDS): return True
         return False
@@ -158,7 +159,7 @@ class EvDomain(Domain):
             self.ev(st, Ev('mutex.' + base, n, name=q, obj=on), fr); return None
         if q.startswith('std::function') and n.op == '()':
             self.ev(st, Ev('opaque', n, name=q, obj=on, args=vals), fr); return Sym('cb-result')
-        if n.n('calleeexpr') is not None or (n.ck == 'op' and n.op == '()' and not n.callee_in_root):
+        if n.n('calleeexpr') is not None or (n.ck == 'op' and n.op == '()' and (not n.callee_in_root or (n.callee_def or '').startswith('witness/'))):
             cal = n.n('calleeexpr') if n.n('calleeexpr') is not None else obj
             self.ev(st, Ev('opaque', n, name=q or 'indirect', obj=self.obj_name(cal), val=ex._rvalue(cal, st, fr) if cal is not None else None, args=vals), fr)
             return Sym('cb-result')
